@@ -140,7 +140,28 @@ func (eng *Engine) ifaceContract(c *ssa.CallCommon) *FuncContract {
 		return eng.contracts.Funcs["::(error)."+c.Method.Name()]
 	}
 	key := n.Obj().Pkg().Path() + "::(" + n.Obj().Name() + ")." + c.Method.Name()
-	return eng.contracts.Funcs[key]
+	if fc := eng.contracts.Funcs[key]; fc != nil {
+		return fc
+	}
+	// a method inherited from an embedded interface: the contract of the interface that declares it
+	if it, ok := n.Underlying().(*types.Interface); ok {
+		for i := 0; i < it.NumEmbeddeds(); i++ {
+			en, ok := it.EmbeddedType(i).(*types.Named)
+			if !ok || en.Obj().Pkg() == nil {
+				continue
+			}
+			if eit, ok := en.Underlying().(*types.Interface); ok {
+				for j := 0; j < eit.NumMethods(); j++ {
+					if eit.Method(j).Name() == c.Method.Name() {
+						if fc := eng.contracts.Funcs[en.Obj().Pkg().Path()+"::("+en.Obj().Name()+")."+c.Method.Name()]; fc != nil {
+							return fc
+						}
+					}
+				}
+			}
+		}
+	}
+	return nil
 }
 
 func newEngine(repo, specDir string) *Engine {
